@@ -1,5 +1,6 @@
 import BufProofs.Props.C17
 import BufProofs.Props.C17Archive
+import BufProofs.Props.C17Presence
 #print axioms BufProofs.C17.targets_exactly_once
 #print axioms BufProofs.C17.imports_once_when_requested
 #print axioms BufProofs.C17.imports_never_otherwise
@@ -18,3 +19,14 @@ import BufProofs.Props.C17Archive
 #print axioms BufProofs.C17.archive_model_conservative
 #print axioms BufProofs.C17.archive_writes_in_own_output
 #print axioms BufProofs.C17.duplicate_in_archive_is_error
+#print axioms BufProofs.C17.present_empty_insertion_point_is_not_an_insertion
+#print axioms BufProofs.C17.present_empty_insertion_point_duplicate_is_error
+#print axioms BufProofs.C17.present_empty_insertion_point_duplicate_same_plugin
+#print axioms BufProofs.C17.presence_invisible_to_writer
+#print axioms BufProofs.C17.present_empty_error_is_no_error
+#print axioms BufProofs.C17.nameless_file_continues_previous
+#print axioms BufProofs.C17.malformed_response_fails
+#print axioms BufProofs.C17.normalized_files_named_and_distinct
+#print axioms BufProofs.C17.presence_invisible_to_generate
+#print axioms BufProofs.C17.generate_duplicate_output_is_error
+#print axioms BufProofs.C17.failed_plugin_fails_generation
